@@ -15,6 +15,7 @@ mod report;
 mod solver;
 mod subject;
 mod symcell;
+mod sel;
 mod term;
 mod x86;
 mod x86env;
@@ -63,6 +64,32 @@ fn main() {
             let w = args.get(4).and_then(|s| s.parse().ok()).unwrap_or(8);
             let tier = std::env::var("VERIF_TIER").unwrap_or_else(|_| "quick".into());
             props::minimize(&args[2], &args[3], w, &tier);
+        }
+        "selsig" => {
+            // development aid: which selector forms does the generator produce on the corpus?
+            let progs = props::corpus_for_dev();
+            let mut set = std::collections::HashMap::new();
+            for p in &progs {
+                sel::observed::<u8>(p, &mut set);
+                sel::observed::<u64>(p, &mut set);
+            }
+            let mut v: Vec<_> = set.into_iter().collect();
+            v.sort();
+            for (k, w) in v {
+                println!("{:28} {}", k, w);
+            }
+        }
+        "sel" => {
+            engine::install_panic_hook();
+            let secs = args.get(2).and_then(|s| s.parse().ok()).unwrap_or(120u64);
+            let out = sel::run(false, secs);
+            println!("forms={} holds={} unsupported={} undecided={} failing={} confirmed_natively={}", out.forms, out.holds, out.unsupported, out.undecided.len(), out.failing.len(), out.failing_confirmed_natively);
+            for f in out.failing.iter() {
+                println!("FAIL {}", f);
+            }
+            for u in out.undecided.iter().take(10) {
+                println!("UNDECIDED {}", u);
+            }
         }
         "one11" => {
             // symx one11 <program> [width]: run the C11 validator on one program verbosely
